@@ -119,6 +119,21 @@ def run_mc(module, cfg, workers=8, expect_violation=False, consts=None, tag=None
     return r
 
 
+def run_apalache(module, inv, length, timeout=900):
+    """bounded symbolic check with Apalache (integers are symbolic: every value, not an enumerated few)"""
+    outdir = os.path.join(WORK, "apalache")
+    os.makedirs(outdir, exist_ok=True)
+    t0 = time.time()
+    rc, out = run(["timeout", str(timeout), "apalache-mc", "check", "--inv=" + inv, "--length=%d" % length, "--out-dir=" + outdir, "--run-dir=" + os.path.join(outdir, "run"), module],
+                  cwd=os.path.join(SPEC, "apalache"), timeout=timeout + 60)
+    shutil.rmtree(outdir, ignore_errors=True)
+    ok = "The outcome is: NoError" in out
+    if not ok:
+        log(out[-3000:])
+        raise ToolError("Apalache did not confirm %s of %s" % (inv, module))
+    return {"module": "apalache/" + module, "invariant": inv, "length": length, "outcome": "NoError", "wall_s": round(time.time() - t0, 1)}
+
+
 def _vdriver_once(cpath, tpath, keep, detail, outdir, extra, timeout):
     cmd = [VDRIVER, "gen", cpath, tpath, "--detail", str(detail)]
     if keep is not None:
